@@ -53,9 +53,9 @@ impl<'a> MsgVariant<'a> {
                 }
                 None => {
                     let return_type = extract_return_type(&sig.output);
-                    let stripped_return_type = StripSelfPath.fold_path(return_type.clone());
-                    generics_checker.visit_path(&stripped_return_type);
-                    Some(parse_quote! { #return_type })
+                    let stripped_return_type = StripSelfPath.fold_type(return_type.clone());
+                    generics_checker.visit_type(&stripped_return_type);
+                    Some(return_type.clone())
                 }
             }
         } else {
